@@ -756,6 +756,11 @@ func vsGenMatch(r *vu.Rng, grpc bool, pools vsPools) vsMatch {
 	} else {
 		m.Path = vsPick(r, pools.paths)
 		m.Exact = r.Chance(1, 3)
+		// an Exact match may end in a slash (a PathPrefix with a trailing slash is left out: Gateway API ignores the
+		// slash there, NGF does not)
+		if m.Exact && m.Path != "/" && r.Chance(1, 4) {
+			m.Path += "/"
+		}
 		if r.Chance(1, 4) {
 			m.Method = vsPtr(vsPick(r, vsMethods))
 		}
@@ -799,7 +804,7 @@ func vsLower(s string) string {
 }
 
 func vsGenBackend(r *vu.Rng, routeNS string) vsBackend {
-	b := vsBackend{Name: vsPick(r, vsSvcPool), Port: 80, Weight: 1}
+	b := vsBackend{Name: vsPick(r, vsSvcPool[:2+r.Intn(2)]), Port: 80, Weight: 1}
 	if r.Chance(1, 5) {
 		b.Port = 8080
 	}
